@@ -98,4 +98,78 @@ def splitWitness (U : Problem) (ps : List Problem) (perm : List Nat) : Bool :=
   U.wfIdx && ps.all Problem.wfIdx && isPermOf perm U.n &&
   sameProblem (U.renameAlong perm) (blockSum ps)
 
+/-! ### the one-sided witness: every restriction of the unsplit problem FOLLOWS from the interval problems
+
+For storages whose start level equals their end level the unsplit problem is not the block sum (its level rows
+are cumulative over the whole horizon), but every one of its rows is a combination of rows of the interval
+problems: the cumulative row at a step of interval `k` is the interval's own cumulative row plus the end-level
+rows of the intervals before.  A certificate gives, for every row of the unsplit problem, the multipliers of
+such a combination; checking it is exact rational arithmetic. -/
+
+/-- the multiplier keeps the direction `≤` : non-negative on `U` rows, non-positive on `L` rows, free on equalities -/
+def signLe (k : RowKind) (y : Rat) : Bool :=
+  match k with
+  | .U => decide (0 ≤ y)
+  | .L => decide (y ≤ 0)
+  | _ => true
+
+/-- the multiplier keeps the direction `≥` -/
+def signGe (k : RowKind) (y : Rat) : Bool :=
+  match k with
+  | .U => decide (y ≤ 0)
+  | .L => decide (0 ≤ y)
+  | _ => true
+
+/-- the rows that take part in a combination (non-zero multiplier), with their multipliers -/
+def activeRows (rows : List Row) (lam : List Rat) : List (Row × Rat) :=
+  (rows.zip lam).filter fun q => q.2 != 0
+
+/-- coefficients of `Σ_i lam_i · rows_i` (not yet merged) -/
+def combCoeffs (L : List (Row × Rat)) : List (Nat × Rat) :=
+  L.flatMap fun q => q.1.coeffs.map fun p => (p.1, q.2 * p.2)
+
+/-- right-hand side of `Σ_i lam_i · rows_i` -/
+def combRhs (L : List (Row × Rat)) : Rat := (L.map fun q => q.2 * q.1.rhs).sum
+
+/-- `a·x ≤ b` is the combination `Σ lam_i rows_i` (each term keeping the direction `≤`), possibly with a
+    smaller right-hand side -/
+def leCert (a : List (Nat × Rat)) (b : Rat) (rows : List Row) (lam : List Rat) : Bool :=
+  let L := activeRows rows lam
+  decide (lam.length = rows.length) && L.all (fun q => signLe q.1.kind q.2) &&
+  decide (normCoeffs (combCoeffs L) = normCoeffs a) && decide (combRhs L ≤ b)
+
+/-- `b ≤ a·x` is the combination `Σ lam_i rows_i` (each term keeping the direction `≥`), possibly with a
+    larger right-hand side -/
+def geCert (a : List (Nat × Rat)) (b : Rat) (rows : List Row) (lam : List Rat) : Bool :=
+  let L := activeRows rows lam
+  decide (lam.length = rows.length) && L.all (fun q => signGe q.1.kind q.2) &&
+  decide (normCoeffs (combCoeffs L) = normCoeffs a) && decide (b ≤ combRhs L)
+
+/-- **row `r` follows from `rows`** with the multipliers `lam` (one per row of `rows`).  For an equality row `r`
+    either one multiplier list that is an exact equality combination (it passes both directions), or two lists
+    one after the other (`lam.length = 2 * rows.length`): the first for `≤`, the second for `≥`. -/
+def rowImplied (r : Row) (rows : List Row) (lam : List Rat) : Bool :=
+  match r.kind with
+  | .U => leCert r.coeffs r.rhs rows lam
+  | .L => geCert r.coeffs r.rhs rows lam
+  | _ =>
+    if lam.length = rows.length then leCert r.coeffs r.rhs rows lam && geCert r.coeffs r.rhs rows lam
+    else leCert r.coeffs r.rhs rows (lam.take rows.length) && geCert r.coeffs r.rhs rows (lam.drop rows.length)
+
+/-- entrywise `≤` of two vectors of the same length -/
+def vecLe (a b : List Rat) : Bool := decide (a.length = b.length) && (a.zip b).all fun p => decide (p.1 ≤ p.2)
+
+/-- **the one-sided witness**: all problems well-formed, `perm` a permutation, and the unsplit problem renamed
+    along `perm` has the cost vector of the block sum of the interval problems, bounds that are not tighter, no
+    boolean variable the block sum does not have, and every one of its rows follows from the rows of the block sum
+    with the multipliers `lams[i]` given for it — the feasible set of the block sum lies inside the feasible set of
+    the unsplit problem and the objectives agree -/
+def splitLeWitness (U : Problem) (ps : List Problem) (perm : List Nat) (lams : List (List Rat)) : Bool :=
+  let A := U.renameAlong perm
+  let B := blockSum ps
+  U.wfIdx && ps.all Problem.wfIdx && isPermOf perm U.n &&
+  decide (A.n = B.n) && decide (A.c = B.c) && vecLe A.l B.l && vecLe B.u A.u &&
+  natsSubset A.boolVars B.boolVars &&
+  decide (lams.length = A.rows.length) && (A.rows.zip lams).all fun q => rowImplied q.1 B.rows q.2
+
 end EAO
